@@ -254,7 +254,7 @@ MEAN_MOTION_DDOT     = {ndotdot:0.1f} [rev/day**3]
     )
 
     if data.cov is not None:
-        text += dump_cov(data.cov)
+        text += dump_cov(data.cov, data.frame)
 
     if "ccsds_user_defined" in data._data:
         text += "\n"
